@@ -265,6 +265,13 @@ impl<'a, T> SurfaceIter<'a, T> {
     //@proof after:/let\spos\s=/ proof { let w0 = choose|win: Win| rep(old(self).shape, win, old(self).data@.len()); lemma_offset(self.shape, w0, self.data@.len(), pos); }
     //@proof start proof { let w0 = choose|win: Win| rep(old(self).shape, win, old(self).data@.len()); lemma_window_fits(old(self).shape, w0, old(self).data@.len()); }
 
+    //@ fn impl<'a, T> SurfaceIter<'a, T> :: position ret=r vis=strip
+    //@+ ensures
+    //@+     // position of the element that will be yielded next: row-major, and (height, 0) once the iterator is exhausted
+    //@+     self.index < self.shape.height * self.shape.width ==> r == pos_of(self.shape, self.index as int),
+    //@+     self.index >= self.shape.height * self.shape.width ==> r == (Position { row: self.shape.height, col: 0 }),
+    //@subst N11 closure annotated with its own body as ensures clause /\|\| Position::new\(self\.shape\.height, 0\)/|| -> (p: Position) ensures p == (Position { row: self.shape.height, col: 0 }) { Position::new(self.shape.height, 0) }/
+
     //@ fn impl<'a, T: 'a> Iterator for SurfaceIter<'a, T> :: next ret=r
     //@subst N5 associated type of the dropped trait impl spelled out /Self::Item/&'a T/
     //@+ requires
